@@ -1,3 +1,5 @@
+#[cfg(mos_verif_threads)]
+use mos_simrt::std_shim as std;
 use crate::codegen::config_extractor::ConfigExtractor;
 use crate::errors::CoreResult;
 use crate::parser::code_map::Span;
